@@ -12,6 +12,62 @@ fn mentions(pat: &str, variant: &str) -> bool {
     pat.contains(&format!("ASN1Type::{}(", variant)) || pat.contains(&format!("ASN1Type::{}{{", variant)) || pat.ends_with(&format!("ASN1Type::{}", variant)) || pat.contains(&format!("ASN1Type::{}|", variant)) || pat.contains(&format!("ASN1Type::{})", variant))
 }
 
+/// C02.wrap (member type): format_member_or_option decides the component's Rust type — boxed when the component is recursive,
+/// hoisted when it is an anonymous type. format_sequence_member may only wrap that type in `Option<..>` (for OPTIONAL components
+/// and for extension addition groups); it is evaluated for every optionality x {ordinary name, group marker}: the final type
+/// is the one it was handed, under `Option` exactly when expected — rebuilding the type loses the Box.
+fn member_type(m: &Model, ctx: &mut Ctx) {
+    use std::collections::BTreeMap as Map;
+    let Some(f) = anchor_fn(m, ctx, "C02.wrap", Some("Rasn"), "format_sequence_member", None) else { return };
+    let consts = const_resolver(m);
+    let hook = |_: &Evaluator, name: &str, a: &[Val]| -> Option<Result<Val, String>> {
+        match name {
+            ".format_member_or_option" => {
+                let mut f = Map::new();
+                f.insert("formatted_type_name".to_string(), Val::Sym("Box<FMT>".into()));
+                f.insert("annotations".to_string(), Val::Sym("ANN".into()));
+                Some(Ok(Val::Ctor("Ok".into(), vec![Val::Ctor("FormattedMemberOrOption".into(), vec![], f)], Map::new())))
+            }
+            ".to_rust_snake_case" => Some(Ok(Val::Sym("field".into()))),
+            ".default_method_name" => Some(Ok(Val::Sym("default_fn".into()))),
+            ".inner_name" => Some(Ok(Val::Sym("INNER".into()))),
+            // Optionality::default(): the DEFAULT value, if any
+            ".default" if a.len() == 1 => Some(Ok(match &a[0] { Val::Ctor(n, p, _) if n == "Default" => Val::some(p.first().cloned().unwrap_or(Val::Unit)), _ => Val::none() })),
+            ".unwrap_or_default" if a.len() == 1 => match &a[0] { Val::Ctor(n, p, _) if n == "Some" => Some(Ok(p[0].clone())), _ => Some(Ok(Val::Sym("".into()))) },
+            _ => None,
+        }
+    };
+    let ev = Evaluator { consts: &consts, call_hook: &hook, inline: None };
+    let params: Vec<String> = f.sig.inputs.iter().filter_map(|a| match a { syn::FnArg::Typed(t) => Some(tok(&t.pat)), _ => None }).collect();
+    for (name, group) in [("abc", false), ("ext_group_abc", true)] {
+        for (opt, optional) in [(Val::ctor("Required"), false), (Val::ctor("Optional"), true), (Val::Ctor("Default".into(), vec![Val::Sym("v".into())], Map::new()), false)] {
+            let key = format!("member-type:{}:{}", name, opt.show());
+            ctx.oblige("C02.wrap", &key, true);
+            let mut me = Map::new();
+            me.insert("name".to_string(), Val::Str(name.into()));
+            me.insert("optionality".to_string(), opt.clone());
+            me.insert("is_recursive".to_string(), Val::Bool(true));
+            let mut env = Env::new();
+            env.insert("self".into(), Val::ctor("Rasn"));
+            env.insert(params.first().cloned().unwrap_or("member".into()), Val::Ctor("SequenceOrSetMember".into(), vec![], me));
+            env.insert(params.get(1).cloned().unwrap_or("parent_name".into()), Val::Str("Parent".into()));
+            env.insert(params.get(2).cloned().unwrap_or("extension_annotation".into()), Val::Sym("".into()));
+            match ev.eval_fn_body(&f.block, &mut env) {
+                Ok(Val::Ctor(ok, p, _)) if ok == "Ok" => {
+                    let typ = match p.first() { Some(Val::Tuple(t)) => t.get(1).and_then(|nt| match nt { Val::Ctor(_, _, f) => f.get("typ").map(|x| x.show().replace(' ', "")), _ => None }), _ => None }.unwrap_or_default();
+                    let want = if optional || group { "Option<Box<FMT>>" } else { "Box<FMT>" };
+                    if typ != want {
+                        ctx.violate("C02.wrap", "member-type-rebuilt", &f.file, f.line,
+                            &format!("format_sequence_member: a component named `{}` ({}) whose type format_member_or_option rendered as `Box<FMT>` (a recursive component) is declared `{}`, expected `{}`: the component's type may only be wrapped in Option, not rebuilt (a lost Box is a type of infinite size)", name, opt.show(), typ, want));
+                    }
+                }
+                Ok(o) => ctx.fail_closed("C02.wrap", &format!("[{}]: {}", key, o.show().chars().take(100).collect::<String>())),
+                Err(e) => ctx.fail_closed("C02.wrap", &format!("[{}]: {}", key, e)),
+            }
+        }
+    }
+}
+
 pub fn run(m: &Model, ctx: &mut Ctx) {
     ctx.explanation = "C02.sym (sibling agreement): in every pattern match over ASN1Type in the crate, SEQUENCE and SET (and SEQUENCE OF / SET OF) are handled alike — a pattern that names one variant of a pair while its sibling falls through to a wildcard/else is a deviant (the IR shares one payload type per pair, so the only legitimate difference is the set marker). \
 C02.order: every iterator chain rooted at a component list (`.members`, `.options`) in the lexer conversions, linker and both generators uses only order- and cardinality-preserving adaptors; rebuilding pushes are at the end position. \
@@ -24,6 +80,7 @@ Not decided: that the parsed list equals the source list, hoisted inner names fo
     order(m, ctx);
     kindmap(m, ctx);
     wrap(m, ctx);
+    member_type(m, ctx);
     defname(m, ctx, "C02.defname");
     rebuild(m, ctx, "C02.rebuild");
     // anonymous nested types are emitted wherever they are referred to (shared with C01.defined)
